@@ -505,6 +505,35 @@ def run_check(prop, spec, tier, seed):
         if res.get('failures'):
             failures[o['id']] = res['failures']
 
+    # 4b. second search: an obligation is broken (proof, correspondence or tie) and no failing input has
+    #     been found for it.  The sibling oracles of the property ran only at their every-run depth;
+    #     run them again at search depth (bounded wall time), so that the breakage comes with a concrete
+    #     failing input on the real code whenever one of the property's oracles can produce it.
+    def _unexplained():
+        return [o['id'] for o in obls if not status.get(o['id'], (True, None))[0]
+                and not [f for f in failures.get(o['id'], [])
+                         if not [k for k in known if finding_matches(k, prop, o['id'], f.get('site'))]]]
+    if _unexplained() and not big:
+        t_search = time.time()
+        for o in obls:
+            fn = o.get('oracle')
+            if not fn or not status.get(o['id'], (True, None))[0]:
+                continue          # no oracle, or already searched at depth above
+            if time.time() - t_search > float(os.environ.get('VERIF_SEARCH_SECONDS', '150')):
+                break
+            try:
+                fns = fn if isinstance(fn, (list, tuple)) else [fn]
+                for f1 in fns:
+                    r1 = f1(rng, budget * 3 / len(fns), True)
+                    R.ev['evaluations'] += r1.get('evaluations', 0)
+                    R.ev['distinct_nontrivial'] += r1.get('distinct_nontrivial', r1.get('evaluations', 0))
+                    for fl in r1.get('failures', []):
+                        if fl.get('site') not in [x.get('site') for x in failures.get(o['id'], [])]:
+                            failures.setdefault(o['id'], []).append(fl)
+            except Exception as ex:
+                R.notes.append('search-depth oracle for %s crashed: %s' % (o['id'], ex))
+        R.notes.append('search-depth pass over sibling oracles: %.0fs' % (time.time() - t_search))
+
     # 5. decision -----------------------------------------------------------
     nobl = 0
     ndis = 0
